@@ -10,3 +10,21 @@ Local Notation length := List.length (only parsing).
 Theorem C14_shared_writes : forallb site_is_once_init write_sites = true.
 Proof. exact shared_writes_only_once_init. Qed.
 Print Assumptions C14_shared_writes.
+
+(** ** every interleaving *)
+From PQL Require Import Proofs.Concurrent.
+
+(** Calls as threads over the package-level state: a thread may take exactly the steps the code
+    can take on shared state -- the guarded once-initialisation, reads of the table after it,
+    and a write through any site of the generated [write_sites] table that is not that
+    initialisation.  For any number of calls and any schedule (any interleaving, any repetition),
+    every value any call reads is the initialised table: no call observes another call or the
+    absence of initialisation, so what a call computes depends on its own arguments only.  The
+    theorem is about the table the translator regenerates from pql.go, parser and cmd/pql on every
+    run: a new package-level write site (a cache, a scratch buffer, a counter) makes the
+    hypothesis [shared_writes_only_once_init] false and this proof fail. *)
+Theorem C14_calls_do_not_interfere : forall (V : Type) (table : V) sched ths,
+  Forall (wf_thread V write_sites) ths -> Forall (fun t => passed V t = false) ths ->
+  Forall (fun o => snd o = Some table) (snd (run V table sched ths)).
+Proof. exact compile_calls_do_not_interfere. Qed.
+Print Assumptions C14_calls_do_not_interfere.
